@@ -131,18 +131,25 @@ Theorem C15_search_picks_become_repulsors_and_state_restored to_cube pick draws 
 Proof. exact (search_picks_become_repulsors to_cube pick draws n a). Qed.
 Print Assumptions C15_search_picks_become_repulsors_and_state_restored.
 
-(* Endpoints: GP models receive the pending points as lies (constant liar) or as the pending set of parallel EI (qEI,
-   single task); the Parzen model as lies of the greater set; search as repulsors.
-   PARTIAL: the model of the GP endpoint also has the branch qEI + multitask, in which the pending points reach neither
-   the data nor a pending set (Proofs.Lies.feed_gp_qei_multitask_drops); see the report / ASSUMPTIONS. *)
-Theorem C15_pending_points_fed_partial :
+(* Endpoints.  GP endpoint, for every GP of the acquisition function's predictor, every history, pending set and all four
+   combinations of parallelism and multitask: the optimiser is handed a model whose data END WITH THE PENDING POINTS AS LIES (one
+   value, the lie noise; the constant-liar optimiser runs), or parallel EI is handed EXACTLY THE PENDING POINTS AS ITS PENDING SET
+   over the data as built.  Which of the two, and which lie value:
+     constant liar (single task or multitask)  lies with the lie value the view supplies (worst non-failed value of the request);
+     qEI, single task, something pending        pending set of parallel EI;
+     qEI, multitask, something pending          lies appended by append_lie_locations before the optimiser runs (the repair of
+                                                the defect `qEI + multitask drops the pending points`): the lie value is the worst
+                                                (maximal) value of the model's OWN data, the view's lie value is not used.
+   The Parzen model receives them as lies of the greater set; search as repulsors. *)
+Theorem C15_pending_points_fed :
+  (forall par mt h pending lie, hist_wf h -> dims_ok (h_dim h) pending ->
+     exists f, feed_gp par mt h pending lie = inl f /\ pending_fed h pending f) /\
   (forall mt h pending lie, dims_ok (h_dim h) pending ->
-     exists f, feed_gp ConstantLiar mt h pending lie = inl f /\ f_use_qei f = false /\
-       h_pts (f_hist f) = h_pts h ++ pending /\
-       h_vals (f_hist f) = h_vals h ++ repeat lie (length pending) /\
-       h_noise (f_hist f) = h_noise h ++ repeat lie_noise (length pending)) /\
+     exists f, feed_gp ConstantLiar mt h pending lie = inl f /\ fed_as_lies h pending lie f) /\
   (forall h pending lie, pending <> [] ->
-     feed_gp QEI false h pending lie = inl (mkFeed h pending true)) /\
+     exists f, feed_gp QEI false h pending lie = inl f /\ fed_as_pending_set h pending f) /\
+  (forall h pending lie, hist_wf h -> dims_ok (h_dim h) pending -> pending <> [] ->
+     exists v f, worst LieMin (h_vals h) v /\ feed_gp QEI true h pending lie = inl f /\ fed_as_lies h pending v f) /\
   (forall s pending, dims_ok (p_dim s) pending ->
      let s' := fst (feed_parzen s pending) in
      snd (feed_parzen s pending) = None /\ p_greater s' = p_greater s ++ pending /\
@@ -150,7 +157,31 @@ Theorem C15_pending_points_fed_partial :
   (forall to_cube sampled pending d,
      repulsors (feed_search to_cube sampled pending d) = map to_cube sampled ++ map to_cube pending).
 Proof. exact pending_points_fed. Qed.
-Print Assumptions C15_pending_points_fed_partial.
+Print Assumptions C15_pending_points_fed.
+
+(* The meaning of the three predicates above, unfolded (so that the statement can be read without Proofs/Lies.v). *)
+Theorem C15_pending_fed_meaning h pending f :
+  pending_fed h pending f <->
+  ((exists v, f_use_qei f = false /\ f_pending_set f = [] /\ h_dim (f_hist f) = h_dim h /\
+      h_pts (f_hist f) = h_pts h ++ pending /\
+      h_vals (f_hist f) = h_vals h ++ repeat v (length pending) /\
+      h_noise (f_hist f) = h_noise h ++ repeat lie_noise (length pending))
+   \/ (f_use_qei f = true /\ f_pending_set f = pending /\ f_hist f = h)).
+Proof. exact (pending_fed_meaning h pending f). Qed.
+Print Assumptions C15_pending_fed_meaning.
+
+(* The GPs under the failure model (constraint metrics, epsilon-constraint thresholds) are built by the same
+   form_single_gaussian_process: lies with the view's lie value under constant liar; under qEI they stay as built (parallel EI with
+   failures samples them at its pending set; in the multitask fall-back append_lie_locations reaches the predictor only, as it does
+   for the picks inside the constant-liar loop). *)
+Theorem C15_failure_model_gps :
+  (forall h pending lie, dims_ok (h_dim h) pending ->
+     exists h', feed_failure_gp ConstantLiar h pending lie = inl h' /\ h_dim h' = h_dim h /\
+       h_pts h' = h_pts h ++ pending /\ h_vals h' = h_vals h ++ repeat lie (length pending) /\
+       h_noise h' = h_noise h ++ repeat lie_noise (length pending)) /\
+  (forall h pending lie, feed_failure_gp QEI h pending lie = inl h).
+Proof. exact failure_gp_feed. Qed.
+Print Assumptions C15_failure_model_gps.
 
 (* non-vacuity: the hypotheses are satisfiable and the machines move *)
 Example C15_example :
@@ -163,26 +194,13 @@ Example C15_example :
   (match snd (s_step true (run (s_step true) stale_witness [SVals; SBest; SAppend [[1#2]] LieMin]) SVals) with
    | OVec v => vec_eqb v [3#2; 5#2; 5#2] | _ => false end) = true /\
   p_greater (run pz_step (mkPz 1 [[0]] [[5]; [6]] [] []) [PAppend [[7]] false; PAppend [[8]] true; PClear; PRecover [[9]] [[7]]]) = [[5]; [6]; [7]] /\
-  Qabs (lie_noise - (1 # 1000000000000)) < 1 # 10000000000000000000000000000.
+  Qabs (lie_noise - (1 # 1000000000000)) < 1 # 10000000000000000000000000000 /\
+  (* the input of the repaired defect (qEI, multitask, one pending point; the view's lie value 7 is NOT what is appended) *)
+  feed_gp QEI true (mkHist 2 [[0; 1]; [1; 1#4]] [1; 2] [0; 0]) [[5#2; 1]] 7 =
+    inl (mkFeed (mkHist 2 [[0; 1]; [1; 1#4]; [5#2; 1]] [1; 2; 2] [0; 0; lie_noise]) [] false).
 Proof.
-  cbv zeta. split; [|split; [|split; [|split; [|split; [|split]]]]]; try (vm_compute; reflexivity).
+  cbv zeta. split; [|split; [|split; [|split; [|split; [|split; [|split]]]]]]; try (vm_compute; reflexivity).
   - unfold gp_wf, hist_wf, gp_cache_ok. cbn. repeat split; try discriminate. left. reflexivity.
   - unfold sum_wf, stale_witness, comp_ok, gp_wf, hist_wf, gp_cache_ok. cbn. repeat split; try discriminate; try (left; reflexivity).
     repeat constructor; cbn; try discriminate; try (left; reflexivity).
 Qed.
-
-(* The clause "pending points are fed to the GP model as lies or as the pending set of parallel EI" is FALSE of the
-   faithful model of the GP endpoint for a multitask request with qEI parallelism: view() forces use_parallel_ei off when
-   task costs are populated, and form_single_gaussian_process appends lies only under constant_liar. Witness by
-   computation; the same input replayed on the implementation is corpus/C15/c15_qei_multitask_pending_dropped.json. *)
-Definition pending_fed (h : hist) (pending : list point) (f : gp_feed) : Prop :=
-  h_pts (f_hist f) = h_pts h ++ pending \/ f_pending_set f = pending.
-Theorem C15_pending_points_fed_refuted_qei_multitask :
-  exists h pending lie f, hist_wf h /\ dims_ok (h_dim h) pending /\ pending <> [] /\
-    feed_gp QEI true h pending lie = inl f /\ ~ pending_fed h pending f.
-Proof.
-  exists (mkHist 2 [[0; 1]; [1; 1#4]] [1; 2] [0; 0]), [[5#2; 1]], 2, (mkFeed (mkHist 2 [[0; 1]; [1; 1#4]] [1; 2] [0; 0]) [] false).
-  split; [unfold hist_wf; cbn; repeat split; discriminate|]. split; [repeat constructor|]. split; [discriminate|].
-  split; [apply feed_gp_qei_multitask_drops|]. intros [H|H]; vm_compute in H; discriminate H.
-Qed.
-Print Assumptions C15_pending_points_fed_refuted_qei_multitask.
